@@ -26,6 +26,8 @@ pub fn run_a_star(
     weight_factor: Option<Cost>,
     si: &SearchInstance,
 ) -> Result<SearchResult, SearchError> {
+    #[cfg(feature = "verif")]
+    verif_hook::begin_run();
     if target.map_or(false, |t| t == source) {
         return Ok(SearchResult::default());
     }
@@ -58,6 +60,8 @@ pub fn run_a_star(
             None => break,
             Some(id) => id,
         };
+        #[cfg(feature = "verif")]
+        verif_hook::record(current_vertex_id.0);
 
         let last_edge_id = get_last_traversed_edge_id(&current_vertex_id, &source, &solution)?;
         let last_edge = match last_edge_id {
@@ -172,6 +176,37 @@ pub fn run_a_star(
 
     let result = SearchResult::new(solution, iterations);
     Ok(result)
+}
+
+/// verification hook (feature `verif`, off by default): records, per thread, the vertex popped
+/// and expanded in each loop turn of `run_a_star`, so that a model can replay exactly the
+/// schedule the priority queue chose among equal-priority entries.
+#[cfg(feature = "verif")]
+pub mod verif_hook {
+    use std::cell::RefCell;
+    /// marker pushed at the start of every `run_a_star` call
+    pub const RUN_MARKER: usize = usize::MAX;
+    thread_local! {
+        static POP_TRACE: RefCell<Option<Vec<usize>>> = const { RefCell::new(None) };
+    }
+    /// start recording on this thread
+    pub fn start() {
+        POP_TRACE.with(|t| *t.borrow_mut() = Some(vec![]));
+    }
+    /// stop recording and return what was recorded
+    pub fn take() -> Vec<usize> {
+        POP_TRACE.with(|t| t.borrow_mut().take().unwrap_or_default())
+    }
+    pub fn begin_run() {
+        record(RUN_MARKER);
+    }
+    pub fn record(v: usize) {
+        POP_TRACE.with(|t| {
+            if let Some(trace) = t.borrow_mut().as_mut() {
+                trace.push(v);
+            }
+        });
+    }
 }
 
 /// convenience method when origin and destination are specified using
